@@ -1,14 +1,15 @@
-(* C13 (h) - the matcher of the port against Lua's: wherever strpatt's _match neither exhausts its
-   recursion budget (MAX_MATCH_CALLS) nor touches memory outside the subject, it returns exactly what
-   lstrlib.c's match returns (end position, captures, failure, malformed-pattern error). *)
+(* C13 (h) - the matcher of the port against Lua's.  strpatt's _match IS lstrlib.c's match run with a smaller
+   recursion budget (MAX_MATCH_CALLS = 32, a documented limit, against MAXCCALLS = 200): it returns exactly
+   what Lua's matcher returns (end position, captures, failure, malformed-pattern error) or stops with
+   "pattern too complex", and it does the latter exactly when Lua's algorithm with that budget would. *)
 From C13 Require Import Model ModelDrv ModelPat ProofsIdx ProofsDrv.
 Local Open Scope Z_scope.
 
-Definition good (r : mres) : Prop :=
-  match r with MFound _ _ | MFail | MError => True | _ => False end.
-
 Section Sim.
   Variable c1 c2 : mcfg.
+  (* is "pattern too complex" one of the results that must carry over?  (yes when the budgets are the same) *)
+  Variable tc_ok : Prop.
+  Definition good (r : mres) : Prop := match r with MTooComplex => tc_ok | _ => True end.
   Variable src pat : bytes.
   (* the classes agree on every byte, the capture limits agree *)
   Hypothesis Hsrc : is_bytes src = true.
@@ -18,6 +19,7 @@ Section Sim.
     cfg_space c1 c = cfg_space c2 c /\ cfg_upper c1 c = cfg_upper c2 c /\ cfg_alnum c1 c = cfg_alnum c2 c /\
     cfg_xdigit c1 c = cfg_xdigit c2 c.
   Hypothesis Hcap : cfg_maxcap c1 = cfg_maxcap c2.
+  Hypothesis Hflag1 : cfg_front_prev_unsafe_on_empty c1 = false.
   Hypothesis Hflag2 : cfg_front_prev_unsafe_on_empty c2 = false.
 
   Lemma S_byte i : 0 <= S_ src i < 256.
@@ -61,12 +63,15 @@ Section Sim.
   Definition sim_again (k1 k2 : Z -> Z -> mres) : Prop :=
     forall s p r, k1 s p = r -> good r -> k2 s p = r.
 
+  (* the result of a call carries over: directly for every constructor but MTooComplex, through [good] for it *)
+  Ltac carry Hc E1 G := first [ rewrite (Hc _ _ _ _ E1 I) | (subst; rewrite (Hc _ _ _ _ E1 G)) ].
+
   Lemma max_down_sim call1 call2 caps s0 ep : sim_call call1 call2 ->
     forall k i r, max_down call1 caps s0 ep k i = r -> good r -> max_down call2 caps s0 ep k i = r.
   Proof.
     intros Hc. induction k as [|k IHk]; intros i r; cbn [max_down];
       destruct (call1 caps (s0 + i) (ep + 1)) eqn:E1; intros H G;
-      try (subst r; contradiction); rewrite (Hc _ _ _ _ E1 I); try exact H.
+      carry Hc E1 G; try exact H; try reflexivity.
     destruct (i - 1 <? 0); [exact H|]. apply IHk; assumption.
   Qed.
 
@@ -75,7 +80,7 @@ Section Sim.
   Proof.
     intros Hc. induction k as [|k IHk]; intros s1 r; cbn [min_up];
       destruct (call1 caps s1 (ep + 1)) eqn:E1; intros H G;
-      try (subst r; contradiction); rewrite (Hc _ _ _ _ E1 I); try exact H.
+      carry Hc E1 G; try exact H; try reflexivity.
     destruct (sm s1); [|exact H]. apply IHk; assumption.
   Qed.
 
@@ -92,7 +97,7 @@ Section Sim.
     match_body c2 src pat call2 again2 caps s p = r.
   Proof.
     intros Hc Ha. unfold match_body.
-    rewrite Hcap, Hflag2.
+    rewrite Hcap, Hflag1, Hflag2.
     destruct (negb (p <? plen pat)); [tauto|].
     (* the default case, shared by three branches *)
     assert (Hdflt : forall r,
@@ -130,7 +135,7 @@ Section Sim.
       { destruct ((P pat ep =? 42) || (P pat ep =? 63) || (P pat ep =? 45)); [apply Ha|tauto]. }
       destruct (P pat ep =? 63).
       { intros H G. destruct (call1 caps (s + 1) (ep + 1)) eqn:E1;
-          try (subst r0; contradiction); rewrite (Hc _ _ _ _ E1 I); try exact H. apply Ha; assumption. }
+          carry Hc E1 G; try exact H; try reflexivity. apply Ha; assumption. }
       destruct ((P pat ep =? 43) || (P pat ep =? 42)); [apply max_down_sim; exact Hc|].
       destruct (P pat ep =? 45); [|apply Ha].
       intros H G.
@@ -153,8 +158,6 @@ Section Sim.
     { destruct (negb (P pat (p + 2) =? 91)); [tauto|].
       destruct (class_end pat (p + 2)) as [ep|]; [|tauto].
       cbn [andb].
-      destruct (cfg_front_prev_unsafe_on_empty c1 && (s =? 0) && negb (s <? slen_ src)).
-      { intros <- G. contradiction. }
       assert (Hprev : 0 <= (if s =? 0 then 0 else S_ src (s - 1)) < 256)
         by (destruct (s =? 0); [lia|apply S_byte]).
       assert (Hnext : 0 <= (if s =? slen_ src then 0 else S_ src s) < 256)
@@ -172,14 +175,15 @@ Section Sim.
   Variable Rd : Z -> Z -> Prop.
   Hypothesis Henter : forall d1 d2 d1', Rd d1 d2 -> cfg_enter c1 d1 = Some d1' ->
     exists d2', cfg_enter c2 d2 = Some d2' /\ Rd d1' d2'.
+  Hypothesis Henter_none : tc_ok -> forall d1 d2, Rd d1 d2 -> cfg_enter c1 d1 = None -> cfg_enter c2 d2 = None.
 
   Lemma do_match_sim fuel : forall d1 d2 caps s p r, Rd d1 d2 ->
     do_match c1 src pat fuel d1 caps s p = r -> good r -> do_match c2 src pat fuel d2 caps s p = r.
   Proof.
-    induction fuel as [|f IH]; intros d1 d2 caps s p r HR; [intros <- G; contradiction|].
+    induction fuel as [|f IH]; intros d1 d2 caps s p r HR; [intros <- G; reflexivity|].
     cbn [do_match]. apply body_sim.
     - intros caps' s' p' r'. unfold enter.
-      destruct (cfg_enter c1 d1) as [d1'|] eqn:E1; [|intros <- G; contradiction].
+      destruct (cfg_enter c1 d1) as [d1'|] eqn:E1; [|intros <- G; rewrite (Henter_none G _ _ HR E1); reflexivity].
       destruct (Henter _ _ _ HR E1) as (d2' & -> & HR'). apply IH. exact HR'.
     - intros s' p' r'. apply IH. exact HR.
   Qed.
@@ -210,34 +214,52 @@ Proof.
   repeat split; assumption.
 Qed.
 
-(* the theorem: where the port's matcher stays within its budget and within memory, it is Lua's *)
+(* where the port's matcher stays within its budget, it is Lua's *)
 Theorem match_eq_lua_partial src pat p0 s r : is_bytes src = true ->
-  run_match nl_cfg src pat p0 s = r -> good r -> run_match lua_cfg src pat p0 s = r.
+  run_match nl_cfg src pat p0 s = r -> r <> MTooComplex -> run_match lua_cfg src pat p0 s = r.
 Proof.
   intros Hsrc. unfold run_match.
   destruct (cfg_enter nl_cfg (cfg_depth0 nl_cfg)) as [d1|] eqn:E1; [|intros <- G; contradiction].
   destruct (budget_enter _ _ _ budget_init E1) as (d2 & -> & HR).
-  apply (do_match_sim nl_cfg lua_cfg src pat Hsrc classes_nl_lua eq_refl eq_refl budget_rel budget_enter).
-  exact HR.
+  intros H G.
+  apply (do_match_sim nl_cfg lua_cfg False src pat Hsrc classes_nl_lua eq_refl eq_refl eq_refl budget_rel budget_enter
+           (fun F => match F with end) (match_fuel src pat) d1 d2 [] s p0 r HR H).
+  destruct r; try exact I. contradiction.
 Qed.
 
-(* full statement: the two matchers agree on every subject and pattern - still false, for one reason
-   only: the recursion budget of the port (MAX_MATCH_CALLS = 32) is smaller than Lua's (MAXCCALLS = 200),
-   so 31 nested captures are "too complex" for it.  (The %f read before an empty subject is repaired.) *)
-Definition match_eq_lua : Prop :=
-  forall src pat p0 s, is_bytes src = true -> run_match nl_cfg src pat p0 s = run_match lua_cfg src pat p0 s.
-
-(* 31 nested captures: within Lua's limits, beyond the port's recursion budget *)
-Definition paren31 : bytes := repeat 40 31 ++ [120] ++ repeat 41 31.
-Lemma match_eq_lua_refuted : ~ match_eq_lua.
+(* THE statement about the matcher: on every subject and pattern the port either returns exactly what Lua's
+   matcher returns (a match with its captures, no match, or a malformed-pattern error) or it stops with its
+   documented "pattern too complex" - never another value *)
+Theorem match_eq_lua src pat p0 s : is_bytes src = true ->
+  run_match nl_cfg src pat p0 s = MTooComplex \/ run_match nl_cfg src pat p0 s = run_match lua_cfg src pat p0 s.
 Proof.
-  intros H. specialize (H [120] paren31 0 0 eq_refl). vm_compute in H. discriminate.
+  intros Hsrc. destruct (run_match nl_cfg src pat p0 s) eqn:E; try (left; reflexivity); right; symmetry;
+    apply (match_eq_lua_partial src pat p0 s _ Hsrc E); discriminate.
 Qed.
 
-(* the port's matcher never reads outside the subject: the model's MUnsafe outcome is unreachable *)
-Lemma nl_match_never_unsafe_frontier : cfg_front_prev_unsafe_on_empty nl_cfg = false.
-Proof. reflexivity. Qed.
+(* ... and it stops exactly when Lua's own algorithm would, were it given the port's budget: the port is
+   lstrlib.c's matcher with MAXCCALLS replaced by MAX_MATCH_CALLS (32 levels instead of 200) *)
+Definition lua_small_cfg : mcfg :=
+  mk_mcfg (cfg_enter nl_cfg) (cfg_depth0 nl_cfg) (cfg_maxcap lua_cfg)
+          (cfg_alpha lua_cfg) (cfg_cntrl lua_cfg) (cfg_digit lua_cfg) (cfg_graph lua_cfg) (cfg_lower lua_cfg)
+          (cfg_punct lua_cfg) (cfg_space lua_cfg) (cfg_upper lua_cfg) (cfg_alnum lua_cfg) (cfg_xdigit lua_cfg) false.
 
+Theorem match_is_lua_with_small_budget src pat p0 s : is_bytes src = true ->
+  run_match nl_cfg src pat p0 s = run_match lua_small_cfg src pat p0 s.
+Proof.
+  intros Hsrc. unfold run_match. change (cfg_enter lua_small_cfg) with (cfg_enter nl_cfg).
+  change (cfg_depth0 lua_small_cfg) with (cfg_depth0 nl_cfg).
+  destruct (cfg_enter nl_cfg (cfg_depth0 nl_cfg)) as [d|]; [|reflexivity].
+  symmetry.
+  apply (do_match_sim nl_cfg lua_small_cfg True src pat Hsrc classes_nl_lua eq_refl eq_refl eq_refl eq
+           (fun d1 d2 d1' (E : d1 = d2) H => ex_intro _ d1' (conj (eq_ind d1 (fun x => cfg_enter nl_cfg x = Some d1') H d2 E) eq_refl))
+           (fun _ d1 d2 (E : d1 = d2) H => eq_ind d1 (fun x => cfg_enter nl_cfg x = None) H d2 E)
+           (match_fuel src pat) d d [] s p0 _ eq_refl eq_refl).
+  destruct (do_match nl_cfg src pat (match_fuel src pat) d [] s p0); exact I.
+Qed.
+
+(* the budget is really smaller: 31 nested captures are within Lua's limits, beyond the port's *)
+Definition paren31 : bytes := repeat 40 31 ++ [120] ++ repeat 41 31.
 Lemma match_budget_witness :
   run_match nl_cfg [120] paren31 0 0 = MTooComplex /\
   exists caps, run_match lua_cfg [120] paren31 0 0 = MFound 1 caps.
@@ -419,7 +441,7 @@ Qed.
 (* string.gsub on a real pattern: if the port's matcher stays within its budget and within memory at
    every position of the subject, string.gsub returns what Lua's gsub returns *)
 Theorem gsub_pattern_eq_lua src pat repl anchor maxn p0 : is_bytes src = true ->
-  (forall pos, 0 <= pos <= slen src -> good (run_match nl_cfg src pat p0 pos)) ->
+  (forall pos, 0 <= pos <= slen src -> run_match nl_cfg src pat p0 pos <> MTooComplex) ->
   nl_gsub (pat_matcher nl_cfg src pat p0) src repl anchor maxn =
   lua_gsub (pat_matcher lua_cfg src pat p0) src repl anchor maxn /\
   lua_gsub (pat_matcher lua_cfg src pat p0) src repl anchor maxn <> None.
